@@ -9,6 +9,7 @@ CONSTANTS
   AllowImport = TRUE
   PersistIns = "buffer"
   PersistRem = "sync"
+  CommitFlush = TRUE
   OneBatch = TRUE
   CasFirst = TRUE
   Gen = FALSE
